@@ -150,6 +150,9 @@ func corpusFor(fmtName string, salt int64, n int, maxRec int) []corpusInput {
 		r := newRand(salt + int64(i)*7919)
 		buf := &bytes.Buffer{}
 		nrec := r.Intn(maxRec + 1)
+		if maxRec > 50 {
+			nrec = maxRec/2 + r.Intn(maxRec/2)
+		}
 		switch fmtName {
 		case "fasta":
 			for j := 0; j < nrec; j++ {
